@@ -230,6 +230,7 @@ func TestVerifC19QuotaReplay(t *testing.T) {
 		dead := false
 		sawDup, sawPodFinished, sawPending, sawTwoInQuota, sawChild := false, false, false, false, false
 		maxBound := 0
+		sawDeleted := false
 
 		sorted := func(pred func(*corev1.Pod) bool) []types.UID {
 			var out []types.UID
@@ -420,6 +421,7 @@ func TestVerifC19QuotaReplay(t *testing.T) {
 				}
 				u := rapid.SampledFrom(uids).Draw(t, "uid")
 				live.OnPodDelete(c19Q(persisted[u]), persisted[u].DeepCopy())
+				sawDeleted = true
 				hist = append(hist, "delete "+persisted[u].Name)
 				delete(persisted, u)
 			},
@@ -467,6 +469,7 @@ func TestVerifC19QuotaReplay(t *testing.T) {
 		})
 		c.ClassIf(sawDup, "duplicate-or-noop-event")
 		c.ClassIf(sawPodFinished, "pod-finished(delivered-as-delete)")
+		c.ClassIf(sawDeleted, "pod-deleted")
 		c.ClassIf(sawPending, "pending-pod-persisted")
 		c.ClassIf(sawTwoInQuota, "two-bound-pods-in-one-quota")
 		c.ClassIf(sawChild, "bound-pod-in-child-quota")
